@@ -425,3 +425,124 @@ func ruleNG3(c *Ctx) {
 		c.unres(rule, "template/PushRune/skip-search", ti.Pos(r.fd.Pos()), "no `return _lexerConsume` in PushRune")
 	}
 }
+
+// ---- NG-4: the non-greedy mark stops only the rule it belongs to ----
+//
+// A DFA state is written to the table as "non-greedy accepting" when it is accepting and carries
+// the mark. The mark comes from the exit state of a `*?`/`+?` loop, the acceptance possibly from a
+// different rule whose accepting state happens to be in the same subset. If the mark is OR-ed in
+// from any constituent NFA state without asking whether the accepting state of *that* loop's rule
+// is in the subset too, a greedy rule is cut short while another rule's non-greedy loop is running
+// (ID = [a-z]+ next to C = 'a' .+? ';' lexes "abc" as ID(ab), ID(c)): the last sentence of C08.
+// Decided where the subset's mark is computed from NFA states: the contribution of an NFA state's
+// NonGreedy must be conditioned on something that relates it to an accepting state of the subset
+// (a lookup in the closure, a comparison of rule identities, an Accept test of a related state).
+func ruleNG4(c *Ctx) {
+	const rule = "NG-4"
+	p := c.Prog
+	n := 0
+	p.ProdFiles(func(pk *packages.Package, f *ast.File) {
+		if !strings.HasSuffix(pk.PkgPath, "/lexergen/dfa") {
+			return
+		}
+		info := pk.TypesInfo
+		for _, d := range f.Decls {
+			fd, ok := d.(*ast.FuncDecl)
+			if !ok || fd.Body == nil {
+				continue
+			}
+			par := parents(fd)
+			ast.Inspect(fd.Body, func(m ast.Node) bool {
+				e, ok := m.(ast.Expr)
+				if !ok || !isField(info, e, "lexergen/nfa", "State", "NonGreedy") {
+					return true
+				}
+				// is this read a contribution to a dfa.State.NonGreedy?
+				var sink ast.Node
+				for q := par[e]; q != nil; q = par[q] {
+					if as, ok := q.(*ast.AssignStmt); ok {
+						for _, l := range as.Lhs {
+							if isField(info, l, "lexergen/dfa", "State", "NonGreedy") {
+								sink = as
+							}
+						}
+						break
+					}
+					if ifs, ok := q.(*ast.IfStmt); ok && containsNode(ifs.Cond, e) {
+						ast.Inspect(ifs.Body, func(k ast.Node) bool {
+							if as, ok := k.(*ast.AssignStmt); ok {
+								for _, l := range as.Lhs {
+									if isField(info, l, "lexergen/dfa", "State", "NonGreedy") {
+										sink = ifs
+									}
+								}
+							}
+							return true
+						})
+						break
+					}
+					if _, ok := q.(ast.Stmt); ok {
+						break
+					}
+				}
+				if sink == nil {
+					return true
+				}
+				n++
+				construct := fmt.Sprintf("%s/mark-from(%s)", funcKey(pk, fd), exprString(e))
+				// anything that ties the contribution to an accepting state of the subset?
+				tied := false
+				relates := func(x ast.Node) {
+					ast.Inspect(x, func(k ast.Node) bool {
+						switch y := k.(type) {
+						case *ast.IndexExpr: // closure[...]
+							if _, isMap := info.TypeOf(y.X).Underlying().(*types.Map); isMap {
+								tied = true
+							}
+						case *ast.CallExpr:
+							if fn := calleeFunc(info, y); fn != nil && (fn.Name() == "Has" || fn.Name() == "Contains" || fn.Name() == "Get") {
+								tied = true
+							}
+						case ast.Expr:
+							if isField(info, y, "lexergen/nfa", "State", "Accept") && !sameExpr(y, e) {
+								// an Accept test in the same condition as the mark
+								tied = true
+							}
+						}
+						return true
+					})
+				}
+				switch s := sink.(type) {
+				case *ast.IfStmt:
+					for _, cj := range conjuncts(s.Cond) {
+						if !containsNode(cj, e) {
+							relates(cj)
+						}
+					}
+				case *ast.AssignStmt:
+					for _, r := range s.Rhs {
+						for _, dj := range disjuncts(r) {
+							if containsNode(dj, e) {
+								for _, cj := range conjuncts(dj) {
+									if !containsNode(cj, e) {
+										relates(cj)
+									}
+								}
+							}
+						}
+					}
+				}
+				for _, fct := range pathConds(info, par, sink) {
+					relates(fct.e)
+				}
+				c.check(tied, rule, construct, p.Pos(e.Pos()),
+					"the mark of an NFA state contributes to the subset's mark only together with a test relating it to an accepting state of the subset",
+					"the subset's non-greedy mark is taken from any constituent NFA state, whichever rule its loop belongs to: a state that is accepting for another (greedy) rule while this loop is running is written as non-greedy accepting and the greedy rule stops early (ID = [a-z]+ next to C = 'a' .+? ';' lexes \"abc\" as ID(ab), ID(c))")
+				return true
+			})
+		}
+	})
+	if n < 1 {
+		c.unres(rule, "dfa/mark-sources", "", "no place where a DFA state's NonGreedy is computed from NFA states was found")
+	}
+}
